@@ -73,6 +73,8 @@ add(tok("lsn_upper_outer", "lsn", SN, options=dict(start_at_upper_outer=True)))
 add(tok("udn_m", "udn_m", DN, mirror=True))
 add(tok("udn_uo", "udn", DN, options=dict(start_at_upper_outer=True)))
 add(tok("cdn_uo", "cdn", CDN, options=dict(start_at_upper_outer=True)))
+add(tok("lsn_xy", "lsn", SN, options=dict(curvature_type="curl(b/B) with x-y derivatives")), Q)
+add(tok("lsn_neg_xy", "lsn", SN, sign=-1.0, options=dict(curvature_type="curl(b/B) with x-y derivatives")), Q)
 # unusual inputs that particular defects need
 add(tok("lsn_nonorth_np2", "lsn", nonorth(SN), options=dict(number_of_processors=2)), Q)
 add(tok("lsn_psi0", "lsn", SN, psi_offset=-0.764, options=dict(psi_pf_lower=0.0)), Q)
